@@ -66,9 +66,33 @@ def parser(ver):
     return p
 
 
+POISONED = [0]
+
+
+def _check_parser_state(ver):
+    """C04 does not judge parser reusability (C03 does): an instance left with parse_arguments=False by a failed
+    parse of an arrow expression is replaced, so that later cases are judged on a sound parser"""
+    p = _PARSERS.get(ver)
+    if p is not None and getattr(p, 'parse_arguments', True) is not True:
+        POISONED[0] += 1
+        del _PARSERS[ver]
+
+
 def tdop_parse(ver, s):
     from elementpath.tdop import Parser
-    return Parser.parse(parser(ver), s)
+    try:
+        return Parser.parse(parser(ver), s)
+    except BaseException:
+        _check_parser_state(ver)
+        raise
+
+
+def full_parse(ver, s):
+    try:
+        return parser(ver).parse(s)
+    except BaseException:
+        _check_parser_state(ver)
+        raise
 
 
 class Outcome:
@@ -154,6 +178,15 @@ def culprit(ver, ast, full, fail_key, outcome_fn=None):
     if len(found) == 1:
         return X.klass(ast, ver, True) + '/' + found[0]
     if not found:
+        if len(paths) >= 2:
+            allrep = ast
+            for p in paths:
+                allrep = X.replace_at(allrep, p, NEUTRAL)
+            try:
+                if fn(allrep).fail_key() != fail_key:
+                    return X.signature(ast, ver, shape)     # only the combination of operands fails
+            except ValueError:
+                pass
         # no operand matters: the failure belongs to the node itself
         detail = f'{ast[3]}{ast[4]}' if ast[0] == 'type' else ''
         return X.klass(ast, ver, True) + '[' + detail + ']'
@@ -243,7 +276,7 @@ def judge_negative(case, rec=None):
     s = X.join_spaced(toks)
     discs = []
     status = 'rejected'
-    for mode, fn in (('tdop', lambda: tdop_parse(ver, s)), ('full', lambda: parser(ver).parse(s))):
+    for mode, fn in (('tdop', lambda: tdop_parse(ver, s)), ('full', lambda: full_parse(ver, s))):
         try:
             t = fn()
         except ElementPathError as e:
@@ -462,9 +495,8 @@ def eval_outcome(ver, s):
     """('err', code) | ('val', canonical) | ('exc', type) | ('resource',) of full parse + evaluate of s"""
     from elementpath import XPathContext
     from elementpath.exceptions import ElementPathError
-    p = parser(ver)
     try:
-        t = p.parse(s)
+        t = full_parse(ver, s)
         ctx = XPathContext(_doc(), variables=dict(_variables(ver)))
         v = t.evaluate(ctx)
         return ['val', cval(v)]
@@ -856,6 +888,7 @@ def run_job(job, rec: Recorder):
         return run_hashseed_job(job, rec)
     jd = _JUDGES[chk]
     hyp_collect(_strategy(job), lambda case: rec.discs_of(chk, case, jd(case, rec)), job['n'], job['seed'], rec)
+    rec.extra['parser_instances_replaced_after_state_leak'] = POISONED[0]
 
 
 def shrink_job(job, bucket, budget):
